@@ -154,7 +154,10 @@ func c08Closed(c *core.Ctx) {
 			}
 		}()
 	}
-	const v1, v2 = 1001, 1002
+	v1, v2 := 1001, 1002
+	if c.Rng.IntN(2) == 0 {
+		v1 = 0 // the zero value is a value like any other
+	}
 	n1 := -1
 	sendDone := core.Go(func() { guard("Send", func() { n1 = x.Send(v1) }) })
 	desc := fmt.Sprintf("R=%d D=%d (before=%d) L=%d cap=%d bulk=%v", R, D, dBefore, L, capacity, bulkAdd)
